@@ -68,6 +68,40 @@ def _or_getattr_alternative(node, mod):
             lib = mod.imports.get(head)
             if lib:
                 return "%s.%s" % (lib, first.args[1].value)
+    # if hasattr(lib, "alt"): ... else: <node>      /    lib.alt if hasattr(lib, "alt") else <node>
+    def has_attr(test):
+        """(canonical 'library.alt', polarity under which alt EXISTS) for a hasattr test, else None"""
+        pol = True
+        while isinstance(test, ast.UnaryOp) and isinstance(test.op, ast.Not):
+            test, pol = test.operand, not pol
+        if isinstance(test, ast.Call) and dotted(test.func) == "hasattr" and len(test.args) == 2 and isinstance(test.args[0], ast.Name) \
+                and isinstance(test.args[1], ast.Constant) and mod.imports.get(test.args[0].id):
+            return "%s.%s" % (mod.imports[test.args[0].id], test.args[1].value), pol
+        return None
+    from ..flow import guard_chain
+    st = enclosing_stmt(node)
+    for test, taken in guard_chain(st):
+        h = has_attr(test)
+        if h is not None and h[1] != taken:
+            return h[0]
+    child, q = node, parent(node)
+    while q is not None and not isinstance(q, ast.stmt):
+        if isinstance(q, ast.IfExp):
+            h = has_attr(q.test)
+            if h is not None:
+                in_body = any(x is child for x in ast.walk(q.body))
+                if h[1] != in_body:
+                    return h[0]
+        child, q = q, parent(q)
+    # try: f = lib.alt  except AttributeError: f = <node>
+    q = parent(st)
+    while q is not None and not isinstance(q, ast.ExceptHandler) and not isinstance(q, (ast.FunctionDef, ast.AsyncFunctionDef)):
+        q = parent(q)
+    if isinstance(q, ast.ExceptHandler) and q.type is not None and "AttributeError" in norm(q.type):
+        t = parent(q)
+        for x in ast.walk(ast.Module(body=t.body, type_ignores=[])):
+            if isinstance(x, ast.Attribute) and isinstance(x.value, ast.Name) and mod.imports.get(x.value.id) and x.value.id == dotted(node).split(".")[0]:
+                return "%s.%s" % (mod.imports[x.value.id], x.attr)
     return None
 
 
@@ -101,11 +135,24 @@ def rule_argorder(ctx):
     c = rets[0].value
     callee = flow.resolve(c.func, at=rets[0])
     ctxt = norm(callee)
-    is_trap = any(t in ctxt for t in ("trapezoid", "trapz"))
+    if isinstance(callee, ast.Name) and flow.defs(callee.id, rets[0]) not in ([], ["param"]):
+        # selected on several paths: every candidate must be the trapezoidal rule
+        vals = [flow._def_value(d_, callee.id) for d_ in flow.defs(callee.id, rets[0]) if d_ != "param"]
+        if any(v is None for v in vals):
+            raise AnalysisError("integrate_column: integration routine bound in an unrecognised way")
+        ctxt = " | ".join(sorted({norm(v) for v in vals}))
+        is_trap = all(any(t in norm(v) for t in ("trapezoid", "trapz")) for v in vals)
+    else:
+        is_trap = any(t in ctxt for t in ("trapezoid", "trapz"))
     ctx.ob("integrate_column.routine", is_trap, "integrates with %s" % ctxt, "numpy's trapezoidal rule (np.trapezoid / np.trapz)", node=c, func=f)
     a = [norm(v) for v in c.args]
     kw = {k.arg: norm(k.value) for k in c.keywords}
-    ok = a[:2] == [y, x] and (kw.get("axis") == axis or (len(a) > 3 and a[3] == axis)) and "dx" not in kw
+    sig = ["y", "x", "dx", "axis"]          # numpy.trapezoid(y, x=None, dx=1.0, axis=-1)
+    bound_ = dict(zip(sig, a))
+    if any(k is None for k in kw) or any(k not in sig for k in kw) or any(k in bound_ for k in kw) or len(a) > 4:
+        raise AnalysisError("integrate_column: call %s does not bind to trapezoid(y, x, dx, axis)" % norm(c))
+    bound_.update(kw)
+    ok = bound_.get("y") == y and bound_.get("x") == x and bound_.get("axis") == axis and "dx" not in bound_
     # the forwarded names are the unmodified parameters
     unmod = all(flow.defs(n, rets[0]) == ["param"] for n in (y, x, axis))
     ctx.ob("integrate_column.forward", ok and unmod, "%s(%s%s); parameters re-bound before the call: %s" % (
@@ -187,7 +234,8 @@ def rule_crh(ctx):
     v1 = A.get("vmr", [None])[-1]
     vs = A.get("vmrs", [None])[-1]
     es = A.get("es", [None])[0]
-    ok_src = v1 is not None and norm(v1.value) == "specific_humidity2vmr(%s)" % qn and vs is not None and norm(vs.value) == "specific_humidity2vmr(qs)" \
+    ok_src = v1 is not None and norm(v1.value) == "specific_humidity2vmr(%s)" % qn and vs is not None \
+        and isinstance(vs.value, ast.Call) and dotted(vs.value.func) == "specific_humidity2vmr" and len(vs.value.args) == 1 \
         and es is not None and norm(es.value) == "e_eq_mixed_mk(%s)" % tn
     ctx.ob("column_relative_humidity.sources", ok_src, "vmr = %s; vmrs = %s; es = %s" % tuple(norm(s.value) if s else None for s in (v1, vs, es)),
            "vmr(q), vmr(q_s), e_s from the MIXED-phase saturation pressure of t", node=v1 or f.node, func=f)
@@ -197,8 +245,20 @@ def rule_crh(ctx):
     if loops:
         lp = loops[0]
         iv = norm(lp.target)
-        body = [norm(s).replace(" ", "") for s in lp.body]
-        ok_fill = body == ["qs[%s]=water_vapor_pressure2specific_humidity(es[%s],%s[%s])" % (iv, iv, pn, iv)]
+        esname = None
+        if len(lp.body) == 1 and isinstance(lp.body[0], ast.Assign) and isinstance(lp.body[0].value, ast.Call) \
+                and dotted(lp.body[0].value.func) == "water_vapor_pressure2specific_humidity" and len(lp.body[0].value.args) == 2 \
+                and not lp.body[0].value.keywords:
+            st0 = lp.body[0]
+            a0, a1 = st0.value.args
+            tgt0 = st0.targets[0]
+            if isinstance(a0, ast.Subscript) and isinstance(a0.value, ast.Name) and isinstance(tgt0, ast.Subscript) and isinstance(tgt0.value, ast.Name):
+                esname = a0.value.id
+                ok_fill = norm(a0.slice) == iv and norm(tgt0.slice) == iv and norm(a1) == "%s[%s]" % (pn, iv)
+                # the level-wise input is the saturation pressure, the output is what becomes q_s
+                src = flow.resolve(ast.Name(id=esname, ctx=ast.Load()), at=lp, depth=1)
+        if esname is None:
+            raise AnalysisError("column_relative_humidity: loop body is not `qs[i] = water_vapor_pressure2specific_humidity(es[i], p[i])`")
         rc = lp.iter
         if isinstance(rc, ast.Call) and dotted(rc.func) == "range":
             bound = rc.args[-1] if len(rc.args) <= 2 else None
@@ -209,17 +269,26 @@ def rule_crh(ctx):
         raise AnalysisError("column_relative_humidity: level loop / bound not found")
     bad = []
     for ndim, axis in ((1, 0), (2, 0), (2, 1), (3, 2)):
-        got, want, first = _shape_model(f, loops[0], bound, ndim, axis, axn)
+        got, want, first = _shape_model(f, loops[0], bound, ndim, axis, axn, esname)
         if got != want or first != want:
             bad.append({"ndim": ndim, "axis": axis, "loop bound": "size of original axis %s" % got if isinstance(got, int) else str(got),
                         "axis 0 of es in the loop": first, "required": "size of original axis %d" % want})
     ctx.models.append({"rule": "C14.crh", "cases": 4, "domain": "(ndim, axis) in (1,0),(2,0),(2,1),(3,2)", "exhaustive": False})
+    # what is converted to vmr_s is the array filled by the level loop
+    tname = loops[0].body[0].targets[0].value.id
+    vs_arg = vs.value.args[0] if vs is not None and isinstance(vs.value, ast.Call) and vs.value.args else None
+    feeds = False
+    if isinstance(vs_arg, ast.Name):
+        feeds = vs_arg.id == tname or any(d_ != "param" and any(isinstance(n_, ast.Name) and n_.id == tname for n_ in ast.walk(d_.value))
+                                            for d_ in flow.defs(vs_arg.id, vs) if hasattr(d_, "value"))
+    ctx.ob("column_relative_humidity.qs_used", feeds, "vmrs = %s; level loop fills %s" % (norm(vs.value) if vs is not None else None, tname),
+           "the saturation vmr is computed from the level-wise q_s", node=vs or f.node, func=f)
     ctx.ob("column_relative_humidity.levels", not bad, "loop bound %s; mismatches: %s" % (norm(bound), bad or "none"),
            "the loop runs over exactly the levels along `axis` (es.shape[axis]), the axis that was swapped to the front", node=loops[0], func=f,
            witness=bad[0] if bad else None)
 
 
-def _shape_model(f, loop, bound, ndim, axis, axn):
+def _shape_model(f, loop, bound, ndim, axis, axn, esname="es"):
     """Interpret the statements before `loop` on arrays whose shape is a permutation of the
     axis labels 0..ndim-1; returns (label the loop bound measures, wanted label, label in front of es)."""
     env = {"__ndim__": ndim}
@@ -296,7 +365,7 @@ def _shape_model(f, loop, bound, ndim, axis, axn):
         env[p_] = ("arr", ident)
     run(f.body)
     b = ev(bound)
-    e = env.get("es", ("unknown",))
+    e = env.get(esname, ("unknown",))
     first = e[1][0] if e[0] == "arr" and e[1] else None
     got = b[1] if b[0] == "size" else str(b)
     return got, axis, first
@@ -317,12 +386,18 @@ def rule_p2h(ctx):
         and norm(first.body[0]).replace(" ", "").replace('"', "'") == "%s=standard_atmosphere(%s,coordinates='pressure')" % (tn, pn)
     ctx.ob("pressure2height.default_T", ok_d, "%s" % norm(first)[:90], "T = standard_atmosphere(p, coordinates='pressure') when no temperature is given", node=first, func=f)
     # layer mean density and the increment, element model: levels 0,1
-    rho = A.get("rho", [None])[-1]
-    rl = A.get("rho_layer", [None])[-1]
-    ld = A.get("layer_depth", [None])[-1]
-    ok_r = rho is not None and norm(rho.value) == "density(%s, %s)" % (pn, tn) and rl is not None \
-        and norm(rl.value).replace(" ", "") in ("0.5*(rho[:-1]+rho[1:])", "(rho[:-1]+rho[1:])/2", "0.5*(rho[1:]+rho[:-1])") \
-        and ld is not None and norm(ld.value) in ("np.diff(%s)" % pn,)
+    # roles by value: the density of the levels, its layer mean, the pressure difference of the layers
+    def by_value(pred):
+        hits = [st for sts in A.values() for st in sts if pred(st)]
+        return hits[-1] if hits else None
+    rho = by_value(lambda st: norm(st.value) == "density(%s, %s)" % (pn, tn))
+    rn = rho.targets[0].id if rho is not None else "rho"
+    rl = by_value(lambda st: "%s[:-1]" % rn in norm(st.value) and "%s[1:]" % rn in norm(st.value))
+    ld = by_value(lambda st: norm(st.value) in ("np.diff(%s)" % pn,))
+    if rho is None or rl is None or ld is None:
+        raise AnalysisError("pressure2height: density of the levels / layer mean / pressure difference not found")
+    rln, ldn = rl.targets[0].id, ld.targets[0].id
+    ok_r = norm(rl.value).replace(" ", "") in ("0.5*(%s[:-1]+%s[1:])" % (rn, rn), "(%s[:-1]+%s[1:])/2" % (rn, rn))
     ctx.ob("pressure2height.layers", ok_r, "rho = %s; rho_layer = %s; layer_depth = %s" % tuple(norm(s.value) if s else None for s in (rho, rl, ld)),
            "rho = density(p, T); layer mean = (rho[:-1] + rho[1:])/2; dp = diff(p)", node=rl or f.node, func=f)
     # z: cumsum(-dp/(rho_layer*g))
@@ -330,13 +405,17 @@ def rule_p2h(ctx):
     ok_z = False
     fact = None
     if cs:
-        arg = cs[0].args[0]
+        from ..canon import canon
+        cc = canon(cs[0])          # x.cumsum() and np.cumsum(x) alike
+        if not cc.args:
+            raise AnalysisError("pressure2height: cumsum without an argument")
+        arg = flow.resolve(cc.args[0], at=cs[0], depth=3, stop=(rln, ldn, pn, tn))
         fact = norm(arg)
         dp, rm = sp.symbols("dp rm", positive=True)
         ev = Sym(ctx.repo)
         g = ev.const.get("earth_standard_gravity")
         try:
-            term = ev.expr(arg, {"layer_depth": dp, "rho_layer": rm}, f, 0)
+            term = ev.expr(arg, {ldn: dp, rln: rm}, f, 0)
             ok_z = sp.simplify(term + dp / (rm * g)) == 0
         except Unsupported as e:
             raise AnalysisError("pressure2height: %s" % e)
